@@ -4,12 +4,44 @@ SPEC = dict(
     driver='c15_ha',
     extra=['ref/ref.c', 'ref/ref_sig.c', 'ref/ref_pdu.c', 'simnet.c'],
     omit_objs=['net_tcp_async.o'],
-    rule='placeholder',
-    bounds=dict(quick='placeholder', thorough='placeholder'),
-    technique='explicit-state search + exhaustive enumeration',
-    level_text='placeholder',
-    level_note='placeholder',
-    require_outcomes=[],
-    assumptions=[],
-    deadline=dict(quick=900, thorough=2700),
+    # BFS cases of part (a) with 3 endpoints x 2 requests replay up to ~10^4 histories: allow more than the default 120 s per case
+    args=['--case-limit', '1500'],
+    # a smaller quarantine (default 256 MB) avoids touching fresh pages for the many 64 KiB blocks of the SDK; other options as in check.py
+    env=dict(ASAN_OPTIONS='detect_leaks=0:abort_on_error=0:allocator_may_return_null=1:handle_abort=1:symbolize=1:detect_stack_use_after_return=0:malloc_context_size=12:quarantine_size_mb=16'),
+    rule='Part (a), completion: one case = (number of endpoints 1..3, number of user requests 1..2, one outcome per endpoint out of {valid reply, error status reply, error PDU, '
+         'never answers, connect refused, request cache of size 1 occupied by a filler request}); inside a case a breadth-first explicit-state search over event histories on the real '
+         'signing HA service (distinct simulated TCP hosts ha0..ha2.test): add user request, run, endpoint i answers its oldest unanswered request with its outcome, clock jump beyond all '
+         'timeouts. Events that commute between two run() calls (answers of different endpoints, additions, clock jumps) are generated in one canonical order only. A state is the history '
+         'reaching it, rebuilt on a fresh context; states are de-duplicated by a canonical key over every sub-service (request cache slots with state / error / id / timer ages / outstanding-response '
+         'counter of the HA request, counters, TCP connection and queues read through the private structs), the HA response queue, the user handles, the undelivered bytes of every connection and '
+         'the shadow model. After every event the shadow model (written from the statement) is compared with what run() handed back, and from EVERY distinct state a drain phase (quiet network, '
+         'clock advancing 2 s per round, at most 40 rounds) checks that every accepted request comes back exactly once. states = distinct canonical states, transitions = events executed on the '
+         'implementation, traces = histories replayed. '
+         'Part (b), configuration consolidation: one case = a multiset of <= 3 (configuration, endpoint) pairs; inside, EVERY order of the pairs x {push-config callback, PUSH_CONFIG_RECEIVED handles, '
+         'handles with all pushes arriving before the first run (distinct endpoints only)} on the signing (max level, aggregation period, max requests) and extending (max requests, calendar first / last time) HA '
+         'service; single-field value alphabets {absent, 0, far below, min-1, min, mid1 < mid2, max, max+1, far above} (duplicates removed), cross-field alphabet {absent, in-range a < b, out-of-range} per field, '
+         'extender configurations self-consistent (first <= last). Oracle: field-wise reference fold over the in-range values after every push, and equality of the final result over all orders.',
+    bounds=dict(quick='(a) 1-2 endpoints x 1-2 requests and 3 endpoints x 1 request, all 6^n outcome assignments (300 cases); clock jumps per history unbounded for 1 endpoint and 2 endpoints x 1 request, '
+                      'at most 1 otherwise; search to the fixpoint (history length bound 40 never reached). (b) 2 endpoints: all single-field multisets of size <= 3 x all endpoint assignments '
+                      '(6 field/service pairs), all cross-field multisets of size 2 over the 64 (62 self-consistent extender) configurations',
+                thorough='(a) additionally 3 endpoints x 2 requests (216 assignments; 1 clock jump per history when at least one endpoint never answers, none when all three answer - timeouts are then '
+                         'exercised by the drain from every state only); unbounded clock jumps elsewhere. (b) 3 endpoints; cross-field multisets of size 3 over the reduced alphabet {absent, in-range, out-of-range}^3 '
+                         'with canonical endpoint numbering'),
+    technique='explicit-state search (BFS with replay and canonical-state de-duplication) + exhaustive enumeration of configuration sequences on the real HA service under a harness-owned network and clock; '
+              'shadow model / reference fold as oracle',
+    level_text='Every order and interleaving with run() of the per-endpoint outcomes is explored to the fixpoint of the reachable canonical state space for up to 3 endpoints and 2 requests, with every '
+               'socket answer and the clock owned by the harness; the shadow model decides exactly-once completion, first-valid-wins (by arrival at the client), error-only-when-all-failed, explained notices and '
+               'exact acceptance at submission, and a drain from every state shows that nothing is lost. The consolidation is compared with an independent fold for every multiset, order and '
+               'endpoint assignment of boundary values. This is exhaustive exploration of the small regime where the protocol logic (counters per request, response queue) is fully exercised.',
+    level_note='Trusted: reference PDU model and aggregator, simulated sockets, the canonical key (a field omitted there could only hide behaviours, never raise a false alarm). A reply that is consumed '
+               'in a run in which its request could already have timed out is accepted either way. First-valid tolerance: a sub-service hands over one finished handle per run, so a reply may be overtaken '
+               'by one round per other request on the same endpoint. HTTP transport is not used here (C07 covers it for single services).',
+    require_outcomes=['req:first-valid-wins', 'req:valid-wins-over-errors', 'req:response:single-endpoint', 'req:all-failed:error', 'req:later-response-discarded', 'notice:error',
+                      'add:forwarded-to-all', 'add:forwarded-to-some', 'add:refused-by-all', 'filler:*',
+                      'conf:field:maxlevel:*', 'conf:field:aggrperiod:*', 'conf:field:maxrequests:*', 'conf:field:calfirst:*', 'conf:field:callast:*',
+                      'conf:deliver:callback', 'conf:deliver:handle', 'conf:cross:aggr', 'conf:cross:ext'],
+    assumptions=['the canonical key distinguishes all states with different futures',
+                 'requests carry distinct hashes, so that the harness can match forwarded copies on the wire',
+                 'the endpoint whose reply won is recognised by the aggregation time in the returned signature (each endpoint answers with its own time)'],
+    deadline=dict(quick=900, thorough=3000),
 )
